@@ -168,6 +168,97 @@ pub fn opt_str<T: ToString>(o: &Option<T>) -> String {
     }
 }
 
+/// Percent-encoding of free text carried in a `key=value` token: every byte outside `[A-Za-z0-9_.]`
+/// becomes `%XX`; the empty string is the word `empty` (and the literal text "empty" is `%65mpty`).
+pub fn text_enc(s: &str) -> String {
+    if s.is_empty() {
+        return "empty".to_string();
+    }
+    if s == "empty" {
+        return "%65mpty".to_string();
+    }
+    let mut out = String::new();
+    for b in s.bytes() {
+        if b.is_ascii_alphanumeric() || b == b'_' || b == b'.' {
+            out.push(b as char);
+        } else {
+            out.push_str(&format!("%{:02X}", b));
+        }
+    }
+    out
+}
+
+pub fn text_dec(s: &str) -> String {
+    if s == "empty" {
+        return String::new();
+    }
+    let b = s.as_bytes();
+    let mut out: Vec<u8> = vec![];
+    let mut i = 0;
+    while i < b.len() {
+        if b[i] == b'%' && i + 2 < b.len() && s.is_char_boundary(i + 1) && s.is_char_boundary(i + 3) {
+            if let Ok(v) = u8::from_str_radix(&s[i + 1..i + 3], 16) {
+                out.push(v);
+                i += 3;
+                continue;
+            }
+        }
+        out.push(b[i]);
+        i += 1;
+    }
+    String::from_utf8_lossy(&out).into_owned()
+}
+
+pub fn opt_text_enc(o: &Option<String>) -> String {
+    match o {
+        None => "-".to_string(),
+        Some(s) => text_enc(s),
+    }
+}
+
+/// Byte payload on the wire: hex digits, optionally followed by `.<bb>x<n>` segments (`n` copies of
+/// byte `bb`), e.g. `89504e47.00x5000`.
+pub fn parse_payload(s: &str) -> Vec<u8> {
+    let mut out = vec![];
+    for (i, seg) in s.split('.').enumerate() {
+        if i > 0 {
+            if let Some((b, n)) = seg.split_once('x') {
+                if let (Ok(b), Ok(n)) = (u8::from_str_radix(b, 16), n.parse::<usize>()) {
+                    out.extend(std::iter::repeat(b).take(n));
+                    continue;
+                }
+            }
+        }
+        let h = seg.as_bytes();
+        let mut j = 0;
+        while j + 1 < h.len() {
+            if let Ok(v) = u8::from_str_radix(&seg[j..j + 2], 16) {
+                out.push(v);
+            }
+            j += 2;
+        }
+    }
+    out
+}
+
+pub fn hex(b: &[u8]) -> String {
+    b.iter().map(|x| format!("{:02x}", x)).collect()
+}
+
+/// Canonical rendering of stored bytes in an observation: hex up to 48 bytes, else `#<len>.<fnv1a-64>`.
+pub fn render_data(b: &[u8]) -> String {
+    if b.len() <= 48 {
+        hex(b)
+    } else {
+        let mut h: u64 = 0xcbf29ce484222325;
+        for x in b {
+            h ^= *x as u64;
+            h = h.wrapping_mul(0x100000001b3);
+        }
+        format!("#{}.{:016x}", b.len(), h)
+    }
+}
+
 /// Clonable in-memory storage.
 #[derive(Clone, Default)]
 pub struct MemStore {
